@@ -35,7 +35,8 @@ def frames(case, api=None):
 
             cols = {"unique_id": pa.array([r["unique_id"] for r in rows], pa.string() if idt == "str" else pa.int64()),
                     "a": pa.array([r["a"] for r in rows], pa.string()), "b": pa.array([r["b"] for r in rows], pa.string()),
-                    "c": pa.array([r["c"] for r in rows], pa.int64()), "arr": pa.array([r["arr"] for r in rows], pa.list_(pa.string()))}
+                    "c": pa.array([r["c"] for r in rows], pa.int64()), "arr": pa.array([r["arr"] for r in rows], pa.list_(pa.string())),
+                    "arr2": pa.array([r.get("arr2") for r in rows], pa.list_(pa.string()))}
             if case["explicit_sd"]:
                 cols["source_dataset"] = pa.array([ALIASES[ti]] * len(rows), pa.string())
             out.append(pa.table(cols))
@@ -53,7 +54,7 @@ def rule_arg(r):
     if r["kind"] == "salted":
         return {"blocking_rule": text, "salting_partitions": r["n"]}
     if r["kind"] == "exploding":
-        return {"blocking_rule": bg.sql(r["ast"]), "arrays_to_explode": ["arr"]}
+        return {"blocking_rule": bg.sql(r["ast"]), "arrays_to_explode": bg.arr_cols(r["ast"]) or ["arr"]}
     return text
 
 
@@ -286,6 +287,8 @@ def gen_case(rng: random.Random, engine=None):
             east = bg.gen_rule(rng, depth=1, asym_ok=False, arr=True)
             if not bg.uses_arr(east):
                 east = ("and", ("arr", "arr"), east) if rng.random() < 0.5 else ("arr", "arr")
+            if rng.random() < 0.35:  # explode TWO array columns in one rule
+                east = ("and", ("and", ("arr", "arr"), ("arr", "arr2")), east) if east not in (("arr", "arr"), ("arr", "arr2")) else ("and", ("arr", "arr"), ("arr", "arr2"))
             rules.append({"kind": "exploding", "ast": east})
             continue
         d = {"kind": kind, "ast": bg.gen_rule(rng, depth=2, asym_ok=asym), "top_unparenthesised": rng.random() < 0.5}
